@@ -15,6 +15,18 @@ CHECKS = {
         "Trusts packaging.version.Version ordering; membership read structurally (interval semantics) as the property states.",
         "DESIGN.md §5 C01",
     ),
+    "C02": (
+        "exhaustive atom pair/triple tables + Hypothesis operand expressions against a shadow AST (packaging for atoms) on an environment grid",
+        "Complete tables of ordered pairs of all python_version/python_full_version atoms (7 operators, wildcards, in/not in lists, both operand orders), pairs and triples on one string variable, on extra (set-valued) and on platform_release, every case evaluated on its whole value grid; Hypothesis adds parse results of nested and/or trees, closure under & and |, Empty/Any operands. Checked: the relation as stated (result vs its operands), the independent reference, and is_empty()/is_any().",
+        "Atom truth from packaging 26.3; version variables: grid contains every critical value and a point in every gap (exact), string variables: relation-closed sample. M4 rows (known finding) excluded and counted. A per-case SIGALRM cap counts as inconclusive.",
+        "DESIGN.md §5 C02",
+    ),
+    "C03": (
+        "exhaustive single-atom grid + Hypothesis marker texts, differential against packaging.Marker.evaluate",
+        "Every single atom of the pools on its value grid (the atom evaluator incl. reversed operands, PEP 685 normalisation, set-valued extras/dependency_groups in lock_file context) and generated texts with nested and/or, parentheses, quote/blank variation and legacy dotted names, compared row by row with the installed packaging.",
+        "packaging 26.3 is the reference as the property prescribes; rows on which it raises are discarded; M4 rows excluded for multi-atom texts.",
+        "DESIGN.md §5 C03",
+    ),
     "C04": (
         "Hypothesis expression trees, differential against packaging.SpecifierSet on final-release candidates",
         "Random &,|,~ trees over PEP 440 clause sets (all operators incl. ~=, wildcards, epochs, alternative spellings) are evaluated by dep-logic and, leaf-wise, by packaging; `in` and contains() must equal the Boolean combination on 30-80 final releases chosen around every bound. Sampling of an infinite space; candidates are placed where the two can differ (each bound, +-1 on its last two segments, shorter/longer, epoch variants).",
